@@ -81,7 +81,7 @@ def runStoreFam (c : Json) : E Json := do
 /-- rule-level settings of one instance of the mechanism -/
 structure Inst where
   ovr : Option Int
-  vl  : Nat
+  vl  : Int
 
 structure Setup where
   mech  : Mech
@@ -97,10 +97,7 @@ def instOf (c : Json) : Inst :=
   let ovr := match c.getObjVal? "ovr" with
     | .ok o => optInt o "ttl"
     | .error _ => none
-  let vl := match optInt c "vl" with
-    | some v => v.toNat
-    | none => 0
-  ⟨ovr, vl⟩
+  ⟨ovr, (optInt c "vl").getD 0⟩
 
 def setupOf (c : Json) : E Setup := do
   let m ← mechOf (← str c "mech")
@@ -136,13 +133,18 @@ def exchangeOf (method : Method) (now : Int) (st : Json) : Exchange :=
   let r := fldD st "resp" (Json.mkObj [])
   let ma := optInt r "maxage"
   let sma := optInt r "smaxage"
-  { method := method
+  { method := match (fld st "method" >>= (·.getStr?)).toOption with
+      | some m => methodOf m
+      | none => method
+    hasBody := boolD st "body" false
     reqAuth := boolD st "auth" false
     reqNoStore := boolD st "reqnostore" false
     status := natD r "status" 200
     noStore := boolD r "no-store" false
+    noCache := boolD r "no-cache" false
     isPublic := boolD r "public" false
     mustRevalidate := boolD r "must-revalidate" false
+    vary := boolD r "vary" false
     maxAge := match ma with
       | some a => if a < 0 then none else some a
       | none => none
@@ -155,10 +157,12 @@ def exchangeOf (method : Method) (now : Int) (st : Json) : Exchange :=
       match optInt r "expires" with
       | some e => .valid (now + e)
       | none => .absent
-    date := (optInt r "date").map (· + now) }
+    date := (optInt r "date").map (· + now)
+    age := optInt r "age"
+    lastModified := (optInt r "lastmod").map (· + now) }
 
 def httpReqs (c : Json) : E (List (Req Exchange)) := do
-  let method := methodOf (← str c "method")
+  let method := methodOf (strD c "method" "GET")
   let steps ← arr c "steps"
   let mut now : Int := 0
   let mut out : List (Req Exchange) := []
@@ -168,19 +172,39 @@ def httpReqs (c : Json) : E (List (Req Exchange)) := do
     out := out ++ [⟨dt, ← nat st "key", exchangeOf method now st⟩]
   return out
 
-def outcomeJson {U : Type} (lookup : Bool) (remote : Bool) (idx : Nat) (o : Outcome U) : Json :=
+/-- `http_cache` settings of an HTTP case: `"hc"` as configured (absent = not configured; for a plain endpoint case
+without `"hc"` caching is enabled with `"dttl"`), and whether the OAuth2 metadata endpoint is in front -/
+def httpConf (c : Json) : Option HttpCacheConf :=
+  match c.getObjVal? "hc" with
+  | .ok (.obj o) =>
+    let j := Json.obj o
+    some ⟨boolD j "enabled" false, (optInt j "dttl").getD 0⟩
+  | .ok _ => none
+  | .error _ => if strD c "via" "" == "metadata" then none else some ⟨true, (optInt c "dttl").getD 0⟩
+
+def httpCasePolicy (c : Json) : Policy Exchange :=
+  if strD c "via" "" == "metadata" then metadataPolicy (httpConf c) else endpointPolicy (httpConf c)
+
+/-- the `default_ttl` in force, `none` = no response cache at all -/
+def effectiveDttl (c : Json) : Option Int :=
+  let conf := if strD c "via" "" == "metadata" then
+      (match httpConf c with | none => some ⟨true, Gen.metadataDefaultTTL⟩ | some x => some x)
+    else httpConf c
+  match conf with
+  | some ⟨true, d⟩ => some d
+  | _ => none
+
+def outcomeJson {U : Type} (lookup : Bool) (remote : Bool) (idx : Nat) (extra : List (String × Json))
+    (o : Outcome U) : Json :=
   let gets := if lookup then 1 else 0
   let up := if remote then 1 else 0
   match o with
-  | .hit it => Json.mkObj [("ok", true), ("hit", true), ("src", jnat it.src), ("gets", jnat gets), ("up", jnat 0),
-      ("set", Json.null)]
-  | .fresh _ stored => Json.mkObj [("ok", true), ("hit", false), ("src", jnat idx), ("gets", jnat gets),
-      ("up", jnat up), ("set", jopt stored)]
+  | .hit it => Json.mkObj ([("ok", Json.bool true), ("hit", Json.bool true), ("src", jnat it.src), ("gets", jnat gets), ("up", jnat 0),
+      ("set", Json.null)] ++ extra)
+  | .fresh _ stored => Json.mkObj ([("ok", Json.bool true), ("hit", Json.bool false), ("src", jnat idx), ("gets", jnat gets),
+      ("up", jnat up), ("set", jopt stored)] ++ extra)
   | .denied => Json.mkObj [("ok", false), ("hit", false), ("src", jint (-1)), ("gets", jnat gets), ("up", jnat up),
       ("set", Json.null)]
-
-def outcomesJson {U : Type} (lookup remote : Bool) (os : List (Int × Outcome U)) : List Json :=
-  (os.zipIdx).map (fun (to, i) => outcomeJson lookup remote i to.2)
 
 def countOutcomes {U : Type} (os : List (Int × Outcome U)) : Json :=
   let hits := (os.filter (fun to => match to.2 with | .hit _ => true | _ => false)).length
@@ -203,6 +227,8 @@ def remClass (leeway : Int) (rem : Option Int) : String :=
 
 def runMech (c : Json) : E Json := do
   let su ← setupOf c
+  -- a negative validity leeway is refused when the configuration is loaded (fix C10-5)
+  if (su.mech == .introspection || su.mech == .generic) && su.insts.any (fun i => decide (i.vl < 0)) then return Json.mkObj [("res", Json.mkObj [("config_error", true)])]
   let reqs ← mechReqs c
   let which := stepInsts c
   let os := runMixed su.kind [] 0 0 ((which.zip reqs).map (fun (i, r) => (su.policy i, r)))
@@ -218,23 +244,39 @@ def runMech (c : Json) : E Json := do
         ++ (if lo ≤ t then ":expired_ca" else "")
     | some _, [] => "len1"
     | none, _ => "no_certificate")
-  let outs := ((os.zip which).zipIdx).map (fun ((to, w), i) => outcomeJson (su.policy w).lookup remote i to.2)
+  -- the JWT finalizer: lifetime of the token handed out (`exp − iat`) and offset of its `nbf`; whatever the claims
+  -- template says, `exp`, `iat` and `nbf` are set by the signer
+  let outs := (((os.zip which).zip reqs).zipIdx).map (fun (((to, w), r), i) =>
+    let extra := if su.mech == .jwtFinalizer then
+        [("life", jint (tokenLifetime (su.cfg w))), ("nbf", jint 0)] else []
+    outcomeJson ((su.policy w).lookup r.up) remote i extra to.2)
   return Json.mkObj [("res", jarr outs),
     ("stats", Json.mkObj ([("outcomes", countOutcomes os), ("rem", jstrs classes),
       ("instances", jnat su.insts.length)] ++ (if su.mech == .jwtKey then [("chains", jstrs chains)] else [])))]
 
 def runHttp (c : Json) : E Json := do
   let reqs ← httpReqs c
-  let dttl ← int c "dttl"
   let kind ← storeKind (← str c "store")
-  let os := run (httpPolicy dttl) kind [] 0 0 reqs
+  let p := httpCasePolicy c
+  let os := run p kind [] 0 0 reqs
   let times := os.map (·.1)
   let classes := (reqs.zip times).map (fun (r, t) =>
-    match freshnessLifetime t r.up with
+    (match freshnessLifetime t r.up with
     | none => "no_lifetime"
     | some l => if l < 0 then "negative" else if l = 0 then "zero" else "positive")
-  return Json.mkObj [("res", jarr (outcomesJson true true os)),
-    ("stats", Json.mkObj [("outcomes", countOutcomes os), ("lifetime", jstrs classes)])]
+    ++ (if r.up.lastModified.isSome then "+last_modified" else "")
+    ++ (if 0 < initialAge t r.up then "+aged" else ""))
+  let kinds := reqs.map (fun r =>
+    (match r.up.method with | .get => "GET" | .head => "HEAD" | .post => "POST" | .other => "other")
+    ++ (if r.up.hasBody then "+body" else "") ++ (if r.up.vary then "+vary" else "")
+    ++ (if r.up.noCache then "+no-cache" else ""))
+  let outs := ((os.zip reqs).zipIdx).map (fun ((to, r), i) => outcomeJson (p.lookup r.up) true i [] to.2)
+  return Json.mkObj [("res", jarr outs),
+    ("stats", Json.mkObj [("outcomes", countOutcomes os), ("lifetime", jstrs classes), ("requests", jstrs kinds),
+      ("settings", jstr (match effectiveDttl c with
+        | none => "cache_off"
+        | some d => if d < 0 then "default_ttl_negative" else if d = 0 then "default_ttl_zero"
+          else "default_ttl_positive"))])]
 
 /-! ### the SPEC as oracle for traces observed on the implementation -/
 
@@ -244,9 +286,10 @@ structure Obs where
   src  : Int
   gets : Nat
   set  : Option Int
+  life : Option Int     -- JWT finalizer: observed `exp − iat` of the token handed out
 
 def obsOf (j : Json) : E Obs := do
-  return ⟨← bool j "ok", ← bool j "hit", ← int j "src", ← nat j "gets", optInt j "set"⟩
+  return ⟨← bool j "ok", ← bool j "hit", ← int j "src", ← nat j "gets", optInt j "set", optInt j "life"⟩
 
 def absTimes {U : Type} (reqs : List (Req U)) : List Int :=
   (reqs.foldl (fun (acc : Int × List Int) r => (acc.1 + r.dt, acc.2 ++ [acc.1 + r.dt])) (0, [])).2
@@ -256,6 +299,7 @@ def judgeMech (c : Json) (obs : List Obs) : E (List Json) := do
   let reqs ← mechReqs c
   let which := stepInsts c
   let times := absTimes reqs
+  let fin := su.mech == .jwtFinalizer
   let mut out : List Json := []
   let mut i := 0
   for o in obs do
@@ -269,21 +313,38 @@ def judgeMech (c : Json) (obs : List Obs) : E (List Json) := do
       match reqs[j]?, times[j]? with
       | some rj, some tj =>
         if o.src < 0 || j ≥ i then bad := bad ++ ["hit without an earlier source request"]
-        else if !mayReuse su.mech (su.cfg (which.getD j 0)) vl ⟨rj.up, tj, j⟩ t then
-          bad := bad ++ [s!"reused at t={t} a result obtained at t={tj} beyond its validity"]
+        else if fin then
+          -- judged against the expiry of the token that was actually handed out (observed `exp − iat`)
+          match (obs[j]?).bind (·.life) with
+          | some life => if !(decide (t < tj + life)) then
+              bad := bad ++ [s!"reused at t={t} a token issued at t={tj} that expired at t={tj + life}"]
+          | none => bad := bad ++ ["reused a token whose expiry was not observed"]
+        else
+          if !mayReuse su.mech (su.cfg (which.getD j 0)) vl ⟨rj.up, tj, j⟩ t then
+            bad := bad ++ [s!"reused at t={t} a result obtained at t={tj} beyond its validity"]
+          match cfg with
+          | some cc => if su.insts.length == 1 && 0 < cc && tj + cc < t then
+              bad := bad ++ [s!"reused at t={t} a result obtained at t={tj}, older than the configured cache_ttl={cc}"]
+          | none => pure ()
       | _, _ => bad := bad ++ ["hit without a source request"]
     match o.set, reqs[i]? with
     | some ttl, some ri =>
-      if 0 < ttl && !mayReuse su.mech cfg vl ⟨ri.up, t, i⟩ (lastServed su.kind t ttl) then
-        bad := bad ++ [s!"stored at t={t} with ttl={ttl}: would be served beyond its validity"]
+      if 0 < ttl then
+        if fin then
+          match o.life with
+          | some life => if !(decide (lastServed su.kind t ttl < t + life)) then
+              bad := bad ++ [s!"stored at t={t} with ttl={ttl} a token that expires at t={t + life}: would be handed out expired"]
+          | none => bad := bad ++ ["stored a token whose expiry was not observed"]
+        else if !mayReuse su.mech cfg vl ⟨ri.up, t, i⟩ (lastServed su.kind t ttl) then
+          bad := bad ++ [s!"stored at t={t} with ttl={ttl}: would be served beyond its validity"]
       match cfg with
-      | some cc => if su.mech != .jwtFinalizer && 0 < ttl && cc < ttl then
+      | some cc => if !fin && 0 < ttl && cc < ttl then
           bad := bad ++ [s!"ttl={ttl} exceeds the configured cache_ttl={cc}"]
       | none => pure ()
     | _, _ => pure ()
     match cfg with
     | some cc =>
-      if su.mech != .jwtFinalizer && cc ≤ 0 && (o.hit || o.gets > 0 || (o.set.map (fun x => decide (0 < x))).getD false) then
+      if !fin && cc ≤ 0 && (o.hit || o.gets > 0 || (o.set.map (fun x => decide (0 < x))).getD false) then
         bad := bad ++ [s!"cache used although cache_ttl={cc} disables caching"]
     | none => pure ()
     out := out ++ [jstrs bad]
@@ -294,25 +355,29 @@ def judgeHttp (c : Json) (obs : List Obs) : E (List Json) := do
   let reqs ← httpReqs c
   let kind ← storeKind (← str c "store")
   let times := absTimes reqs
+  let eff := effectiveDttl c
+  let dttl := eff.getD 0
   let mut out : List Json := []
   let mut i := 0
   for o in obs do
     let t := times.getD i 0
     let mut bad : List String := []
+    if eff.isNone && (o.hit || o.gets > 0 || (o.set.map (fun x => decide (0 < x))).getD false) then
+      bad := bad ++ ["response cache used although http_cache is not enabled"]
     if o.hit then
       let j := o.src.toNat
       match reqs[j]?, times[j]? with
       | some rj, some tj =>
         if o.src < 0 || j ≥ i then bad := bad ++ ["hit without an earlier source request"]
-        else if !mayStore tj rj.up then
-          bad := bad ++ [s!"served from cache at t={t} a response received at t={tj} whose freshness lifetime is not positive (must not be stored at all)"]
-        else if !mayServe ⟨rj.up, tj, j⟩ t then
-          bad := bad ++ [s!"served from cache at t={t} a response received at t={tj} after its freshness lifetime"]
+        else if !mayStore dttl tj rj.up then
+          bad := bad ++ [s!"served from cache at t={t} a response received at t={tj} that must not be stored at all (freshness lifetime not positive, no-cache, or no explicit lifetime and default_ttl={dttl})"]
+        else if !mayServe dttl ⟨rj.up, tj, j⟩ t then
+          bad := bad ++ [s!"served from cache at t={t} a response received at t={tj} after its freshness lifetime (age on receipt {initialAge tj rj.up}, default_ttl={dttl})"]
       | _, _ => bad := bad ++ ["hit without a source request"]
     match o.set, reqs[i]? with
     | some ttl, some ri =>
-      if 0 < ttl && !(mayStore t ri.up && mayServe ⟨ri.up, t, i⟩ (lastServed kind t ttl)) then
-        bad := bad ++ [s!"stored at t={t} with ttl={ttl}: would be served after its freshness lifetime"]
+      if 0 < ttl && !(mayStore dttl t ri.up && mayServe dttl ⟨ri.up, t, i⟩ (lastServed kind t ttl)) then
+        bad := bad ++ [s!"stored at t={t} with ttl={ttl}: would be served after its freshness lifetime (default_ttl={dttl})"]
     | _, _ => pure ()
     out := out ++ [jstrs bad]
     i := i + 1
